@@ -4,7 +4,10 @@ Spec: spec/ServerShutdown (accept loop, per-connection recv loop, handlers direc
 queue/dispatcher, Release handshake, Shutdown poller with CloseIdles and the close notification).
 MC: 2 connections, 3-4 requests, two calls of Shutdown (overlapping or one after the other), no pool / pool 1 / pool 2:
 ReadImpliesAnswered, NoLateWrite, Notified, ReturnsWhenDrained (every call), and under fairness ReadGetsAnswered / ShutdownDrains; the variant that releases the pool as
-soon as the accept loop exits must violate ReadGetsAnswered (non-vacuity).
+soon as the accept loop exits must violate ReadGetsAnswered (non-vacuity).  The response write is a step of its own (WriteBegin ... WriteEnd, any
+number of steps of the other goroutines in between: a client reads when it pleases); numInvoke is released at WriteEnd; the variant that releases it
+when invoke returns (EarlyDec) must violate ReadImpliesAnswered under a shutdown and NoLateWrite under an idle close alone (non-vacuity).  MC_idle: a
+server with read and idle timeouts (a recv loop ends on a connection with nothing buffered and nothing outstanding, without any shutdown).
 Binding B1: a real transport.TarsServer (recording protocol with scripted handler durations, real
 protocol.TarsRequest framing) is driven by scripted clients and shut down at varied moments; hooks report
 read / invoked / written / connection closed / accept-loop exit / pool released; the clients report responses,
@@ -14,7 +17,13 @@ client was notified, and that every call of Shutdown returned only when everythi
 Run kinds: base (1-2 connections, 0-6 requests, one call), twice (1-3 connections, a 1.2-2.7 s handler in flight, two or
 three calls of Shutdown: overlapping / after a call whose short context expired / after a call that drained), mix (3-6
 connections in different states at the moment of shutdown: silent from the start, silent for > 2 s after early traffic,
-a 0.7-2.7 s handler in flight, recent short requests; one call or several).
+a 0.7-2.7 s handler in flight, recent short requests; one call or several), slow (1-2 connections; 1-3 requests whose responses of 1-16 MiB
+do not fit into the socket buffers, to a client with a 64 KiB receive buffer that starts reading 1.2-3.6 s after Shutdown was called: the handlers are
+blocked in conn.Write, or wait behind the one that is, while the poller and the recv loop's deferred close look at numInvoke; every third run: a first
+call with a 500 ms context, which must return when that context expires), slowidle (the same on a server with ReadTimeout 1 s / IdleTimeout 0: the recv
+loop's idle close looks at numInvoke at every read timeout; Shutdown during the write, or after the connection was closed as idle).  The client reports a
+response only when it is complete (RespRecv), a stream that ends inside a response as RespCut (never accepted); at the end of its stream (PeerEOF) the
+complete response of every request read from the connection must have arrived.
 """
 import json
 import os
@@ -54,13 +63,34 @@ def classify(n, q, t, f):
     ev = f["event"]
     read = {e["r"] for e in t if e["e"] == "Read"} - oneway(t)
     written = {e["r"] for e in t if e["e"] == "Written"}
-    if ev.get("e") in ("End", "ShutdownEnd") and read - written:
+    before = t[:f["offset"]]
+    c = ev.get("c")
+    # requests of the connection concerned whose handler had returned from invoke and had not finished writing the response
+    inwrite = sorted(({e["r"] for e in before if e["e"] == "Invoked"} - {e["r"] for e in before if e["e"] == "Written"} - oneway(t))
+                     & {r for r in read if r // 10 == c})
+    if ev.get("e") == "RespCut" and not inwrite and ev["r"] in read:
+        # the failed write has been reported (hook after conn.Write) before the client came to read what had got through:
+        # judge the moment the connection was closed, or, failing a report of that, the moment the write ended
+        inwrite = [ev["r"]]
+        cl = [i for i, e in enumerate(before) if (e["e"] == "ConnClosed" and e["c"] == c) or (e["e"] == "Written" and e["r"] == ev["r"])]
+        before = t[:cl[0]] if cl else before
+    if ev.get("e") in ("ConnClosed", "PeerEOF", "RespCut") and inwrite:
+        phase = "shutdown" if any(e["e"] == "ShutdownStart" for e in before) else "idle-close"
+        sizes = {e["r"]: e.get("size", 12) for e in t if e["e"] == "ReqSent"}
+        cut = [e for e in t if e["e"] == "RespCut" and e["c"] == c]
+        sig = "C12:closed-under-response-write:%s:%s" % (phase, "pool" if n > 0 else "nopool")
+        what = ("connection %d was closed (%s; event %s) while the handlers of requests %s, read from it, had returned from invoke and were still "
+                "writing their responses (%s bytes) to a client that reads slowly: the in-flight counter no longer covered the write%s (pool %d, queue %d)"
+                % (c, "during a graceful shutdown" if phase == "shutdown" else "as idle, before the shutdown", ev.get("e"), inwrite,
+                   [sizes.get(r) for r in inwrite],
+                   "; the client got %d of %d bytes of the response of request %d" % (cut[0]["got"], cut[0]["want"], cut[0]["r"]) if cut else "", n, q))
+        before = t[:f["offset"]]
+    elif ev.get("e") in ("End", "ShutdownEnd") and read - written:
         sig = "C12:read-not-answered:%s" % ("pool" if n > 0 else "nopool")
         what = ("requests %s were read but never answered (pool %d, queue %d); Shutdown %s"
                 % (sorted(read - written), n, q, [e for e in t if e["e"] == "ShutdownEnd"]))
     elif ev.get("e") == "ShutdownEnd" and not ev["expired"]:
         # the call returned with a live context although the model cannot have every connection closed at this point
-        before = t[:f["offset"]]
         later = any(e["e"] == "ShutdownStart" and e["k"] != ev["k"] for e in
                     before[:[i for i, e in enumerate(before) if e["e"] == "ShutdownStart" and e["k"] == ev["k"]][0]])
         pending = sorted(({e["r"] for e in before if e["e"] == "Read"} - oneway(t)) - {e["r"] for e in before if e["e"] == "Written"})
@@ -94,6 +124,29 @@ def early_return(t, want):
     return None
 
 
+def tcfg(tmpl, key):
+    """Trace.cfg for a group of runs: key = (pool, queue, idle) — idle: the server runs with a read timeout and an idle timeout."""
+    n, q, idle = key
+    return tmpl.replace("@N@", str(n)).replace("@Q@", str(q)).replace("@IDLE@", "TRUE" if idle else "FALSE")
+
+
+def blocked_in_write(t):
+    """Requests of a run whose handler had returned from invoke before the first call of Shutdown and whose write ended only
+    after the (slow) client of their connection had started to read, i.e. handlers blocked in conn.Write when Shutdown began."""
+    pos = {}
+    for i, e in enumerate(t):
+        if e["e"] in ("Invoked", "Written"):
+            pos[(e["e"], e["r"])] = i
+        elif e["e"] == "ClientReads":
+            pos.setdefault(("ClientReads", e["c"]), i)
+        elif e["e"] == "ShutdownStart":
+            pos.setdefault("S", i)
+    if "S" not in pos:
+        return []
+    return [kr[1] for kr in sorted(x for x in pos if x != "S") for r in [kr[1]] if kr[0] == "Invoked" and pos[("Invoked", r)] < pos["S"]
+            and ("ClientReads", r // 10) in pos and pos.get(("Written", r), -1) > pos[("ClientReads", r // 10)] > pos["S"]]
+
+
 def run(ctx):
     ctx.level = "model_checking"
     ctx.assumptions = [
@@ -102,6 +155,9 @@ def run(ctx):
         "an expired long context means requests were stranded, not slow; short contexts (300-900 ms) of additional calls are meant to expire",
         "server runs with the framework defaults ReadTimeout = 0, AcceptTimeout = 500 ms; one run in three sends one more request 200-300 ms after Shutdown began "
         "(before the poller's first round sends the close message), otherwise clients send nothing after Shutdown starts",
+        "slow runs: a 1-16 MiB response does not fit into 64 KiB socket buffers on either side (checked per run: the write must end after the client started "
+        "to read, else the run does not count as blocked); the slow client starts reading at most 3.6 s after Shutdown was called, the long context is 6 s; "
+        "a rejection of a slow run is reported when a re-run of the same scenario shows it again",
         "a client that saw the end of its stream without the notification is reported when a re-run of the same scenario (three are made) shows it again "
         "(in the code the order of the poller's first round and the recv loop's own exit is a matter of a 100 ms margin: on an overloaded machine it can flip)",
     ]
@@ -110,10 +166,13 @@ def run(ctx):
     # the model is checked while the real code is driven (the driver sleeps most of the time)
     mcex = ThreadPoolExecutor(max_workers=4)
     # two calls of Shutdown in every configuration (thorough); quick: two calls with pool 2 and, with 3 requests, without a pool; one call in the others
-    one_call = ctx.pick(("nopool", "pool_late", "pool_early"), ())
+    # (the write is a step of its own since the slow-client runs were added: quick keeps 4 requests without a pool and takes 3 with pool 1)
+    one_call = ctx.pick(("nopool", "pool_early"), ())
     mccfg = {c: open(os.path.join(VERIF, "spec", SPEC, "MC_%s.cfg" % c)).read().replace("Calls <- K2", "Calls <- K1" if c in one_call else "Calls <- K2")
-             for c in ("nopool", "pool_late", "pool2_late", "pool_early")}
+             for c in ("nopool", "pool_late", "pool2_late", "pool_early", "idle", "earlydec", "earlydec_pool")}
     if ctx.quick:
+        mccfg["pool_late"] = mccfg["pool_late"].replace("Reqs <- R4  ConnOf <- CO4", "Reqs <- R3  ConnOf <- CO3")
+        assert "R3" in mccfg["pool_late"] and "K2" in mccfg["pool_late"]
         mccfg["nopool_twice"] = (open(os.path.join(VERIF, "spec", SPEC, "MC_nopool.cfg")).read()
                                  .replace("Reqs <- R4  ConnOf <- CO4", "Reqs <- R3  ConnOf <- CO3"))
         assert "R3" in mccfg["nopool_twice"] and "K2" in mccfg["nopool_twice"]
@@ -126,6 +185,9 @@ def run(ctx):
                for i, (n, q) in enumerate([(0, 3), (1, 3), (2, 3), (2, 1), (1, 1), (0, 3), (2, 3), (1, 3)])]
     configs += [(n, q, "twice", ctx.pick(3, 24), []) for n, q in [(0, 3), (2, 3), (1, 1)]]
     configs += [(n, q, "mix", ctx.pick(4, 30), []) for n, q in [(0, 3), (2, 3), (1, 3)] + ctx.pick([], [(0, 3), (2, 1)])]
+    # responses of 1-16 MiB to clients that start reading 1.2-3.2 s after Shutdown began (handlers blocked in conn.Write)
+    configs += [(n, q, "slow", ctx.pick(3, 20), []) for n, q in [(0, 3), (2, 3), (1, 1)] + ctx.pick([], [(1, 3), (2, 1)])]
+    configs += [(n, q, "slowidle", ctx.pick(3, 14), []) for n, q in [(0, 3), (2, 3)]]
 
     def drive(i):
         n, q, kind, runs, extra = configs[i]
@@ -134,7 +196,7 @@ def run(ctx):
                          "-ctx", str(CTX_MS), "-kind", kind, "-out", out] + extra, timeout=3400)
         if rc != 0:
             raise Inconclusive("vdrive shutdown-trace failed (%s): %s" % (kind, se[-400:]))
-        return (n, q), out, [int(x) for x in so.split()[-7:]], kind
+        return (n, q, kind == "slowidle"), out, [int(x) for x in so.split()[-7:]], kind
 
     with ThreadPoolExecutor(max_workers=len(configs)) as ex:
         outs = list(ex.map(drive, range(len(configs))))
@@ -146,8 +208,15 @@ def run(ctx):
             if "ReadGetsAnswered" not in r.out or "violated" not in r.out:
                 raise Inconclusive("the early-release model does not violate ReadGetsAnswered (vacuity guard)")
             continue
+        if c in ("earlydec", "earlydec_pool"):
+            # the counter released when invoke returns, before the write: a shutdown (no pool) / an idle close alone (pool 2) must
+            # close a connection under a response write
+            inv = {"earlydec": "ReadImpliesAnswered", "earlydec_pool": "NoLateWrite"}[c]
+            if "Invariant %s is violated" % inv not in r.out:
+                raise Inconclusive("the model with the counter released before the write does not violate %s (vacuity guard)" % inv)
+            continue
         tlc.require_clean(r, "MC_ServerShutdown/" + c)
-        mc[c] = {"distinct": r.distinct, "generated": r.generated, "calls_of_Shutdown": 1 if c in one_call else 2}
+        mc[c] = {"distinct": r.distinct, "generated": r.generated, "calls_of_Shutdown": 2 if "Calls <- K2" in mccfg[c] else 1}
     mcex.shutdown()
     ctx.log("model checked")
     hits = [sum(o[2][k] for o in outs) for k in range(7)]
@@ -162,15 +231,15 @@ def run(ctx):
         kinds[kind] = kinds.get(kind, 0) + len(ts)
 
     def val(item):
-        (n, q), traces = item
-        return (n, q), traces, tracecheck.validate(ctx, SPEC, "Trace_ServerShutdown", tmpl.replace("@N@", str(n)).replace("@Q@", str(q)),
-                                                   traces, name="trace-%d-%d" % (n, q), reset={"e": "End"})
+        key, traces = item
+        return key, traces, tracecheck.validate(ctx, SPEC, "Trace_ServerShutdown", tcfg(tmpl, key),
+                                                traces, name="trace-%d-%d-%d" % key, reset={"e": "End"})
 
     states = trans = ntr = 0
     expired = 0
     pending_timed = []
     with ThreadPoolExecutor(max_workers=6) as ex:
-        for (n, q), traces, (acc, fails, st) in ex.map(val, list(groups.items())):
+        for (n, q, idle), traces, (acc, fails, st) in ex.map(val, list(groups.items())):
             states += st["states"]
             trans += st["transitions"]
             ntr += len(traces)
@@ -178,7 +247,8 @@ def run(ctx):
             for f in fails:
                 t = traces[f["index"]]
                 sig, what = classify(n, q, t, f)
-                if ":PeerEOF" in sig or "NotifiedT" in sig or ":ReqSent" in sig:
+                # (runs with a slow client: a verdict that rests on seconds of scripted timing is reproduced on a second run before it is reported)
+                if ":PeerEOF" in sig or "NotifiedT" in sig or ":ReqSent" in sig or f["event"].get("e") == "PeerEOF" or t[0]["kind"].startswith("slow"):
                     pending_timed.append((sig, what, n, q, t, f))
                 else:
                     ctx.violate(sig, what, {"n": n, "q": q, "trace": t, "offset": f["offset"]})
@@ -203,7 +273,7 @@ def run(ctx):
             ts = split(out) if rc == 0 else []
             if len(ts) != 1:
                 raise Inconclusive("re-run of scenario %s/%d failed: %s" % (c0["kind"], c0["sc"], se[-300:]))
-            acc, fl, _ = tracecheck.validate(ctx, SPEC, "Trace_ServerShutdown", tmpl.replace("@N@", str(n)).replace("@Q@", str(q)), ts,
+            acc, fl, _ = tracecheck.validate(ctx, SPEC, "Trace_ServerShutdown", tcfg(tmpl, (n, q, c0["idle"])), ts,
                                              name="rerun-%d" % i, reset={"e": "End"})
             return bool(fl) and classify(n, q, ts[0], fl[0])[0] == sig
 
@@ -232,43 +302,43 @@ def run(ctx):
                     {"n": t[0]["n"], "q": t[0]["q"], "trace": t})
     # "... or when its context expires, whichever is first": a call must not outlive its context (2 s of margin for a loaded machine)
     overdue = [(t, e) for ts in groups.values() for t in ts for e in t if e["e"] == "ShutdownEnd" and e["ms"] > e["ctx"] + 2000]
-    if len(overdue) >= 2:
-        t, e = overdue[0]
+    # (seen in two calls at least: the second one is the reproduction of a verdict that rests on wall-clock time)
+    behind = [(t, e) for t, e in overdue if t[0]["kind"].startswith("slow") and blocked_in_write(t)]
+    plain = [(t, e) for t, e in overdue if not (t[0]["kind"].startswith("slow") and blocked_in_write(t))]
+    if len(behind) >= 2:
+        t, e = behind[0]
+        ctx.violate("C12:shutdown-outlived-its-context:behind-a-response-write",
+                    "in %d calls (runs %s) Shutdown returned seconds after its context had expired, namely when a client that was slow to read a large response "
+                    "(requests %s of this run, their handlers blocked in conn.Write) started reading: the poller was itself blocked in a write "
+                    "(the close message) to that connection: %s" % (len(behind), ["%s/%d/%d" % (t_[0]["kind"], t_[0]["dseed"], t_[0]["sc"]) for t_, _ in behind][:6],
+                                                                    blocked_in_write(t), e),
+                    {"n": t[0]["n"], "q": t[0]["q"], "trace": t})
+    if len(plain) >= 2 or (plain and len(overdue) >= 2 and not len(behind) >= 2):
+        t, e = plain[0]
         ctx.violate("C12:shutdown-outlived-its-context", "in %d calls Shutdown returned long after its context had expired: %s" % (len(overdue), e),
                     {"n": t[0]["n"], "q": t[0]["q"], "trace": t})
-    # binding self-test on an accepted trace
+    # binding self-tests: corrupted copies of accepted runs, each of which TLC must reject (validated concurrently)
+    allt = [t for ts in groups.values() for t in ts]
+    jobs = []    # (label, trace, ok(fails, trace))
     base = None
-    for traces in groups.values():
-        for t in traces:
-            ws = [e for e in t if e["e"] == "Written"]
-            if ws and any(e["e"] == "ConnClosed" and e["c"] == ws[-1]["r"] // 10 for e in t) and not any(e["e"] == "ClientAbort" for e in t):
-                base = t
-                break
-        if base:
+    for t in allt:
+        ws = [e for e in t if e["e"] == "Written"]
+        if ws and any(e["e"] == "ConnClosed" and e["c"] == ws[-1]["r"] // 10 for e in t) and not any(e["e"] == "ClientAbort" for e in t):
+            base = t
             break
     if base is None:
         raise Inconclusive("no trace suitable for the self-test")
-    cfg0 = base[0]
     wi = [i for i, e in enumerate(base) if e["e"] == "Written"][-1]
     m1 = [e for i, e in enumerate(base) if i != wi and not (e["e"] == "RespRecv" and e["r"] == base[wi]["r"])]   # answer never written
-    selftest = {}
-    t_cfg = tmpl.replace("@N@", str(cfg0["n"])).replace("@Q@", str(cfg0["q"]))
-    acc, fails, _ = tracecheck.validate(ctx, SPEC, "Trace_ServerShutdown", t_cfg, [m1], name="selftest-unanswered", reset={"e": "End"})
-    selftest["response-never-written"] = "rejected" if fails else "ACCEPTED"
-    if not fails:
-        raise Inconclusive("binding self-test failed: a run with an unanswered request was accepted")
+    jobs.append(("response-never-written", m1, lambda fails, m: bool(fails)))
     # connection closed before the last response was written
     m3 = list(base)
     w = m3.pop(wi)
     ci = [i for i, e in enumerate(m3) if e["e"] == "ConnClosed" and e["c"] == w["r"] // 10][0]
     m3.insert(ci + 1, w)
-    acc, fails, _ = tracecheck.validate(ctx, SPEC, "Trace_ServerShutdown", t_cfg, [m3], name="selftest-latewrite", reset={"e": "End"})
-    selftest["closed-before-written"] = "rejected" if fails else "ACCEPTED"
-    if not fails:
-        raise Inconclusive("binding self-test failed: close-before-write accepted")
+    jobs.append(("closed-before-written", m3, lambda fails, m: bool(fails)))
     # a call of Shutdown that returns with a live context while a request is still being handled: (a) a later call (second or third,
     # overlapping or after an earlier call has returned), (b) the only call of a run with three or more connections in different states
-    allt = [t for ts in groups.values() for t in ts]
     for label, want in (("later-call-returns-at-once", lambda t, k: k > 1),
                         ("returns-while-another-connection-is-busy", lambda t, k: k == 1 and t[0]["conns"] >= 3 and calls(t) == 1)):
         m = None
@@ -278,11 +348,50 @@ def run(ctx):
                 break
         if m is None:
             raise Inconclusive("no run suitable for the self-test %s (vacuous corpus)" % label)
-        t_cfg = tmpl.replace("@N@", str(m[0]["n"])).replace("@Q@", str(m[0]["q"]))
-        acc, fails, _ = tracecheck.validate(ctx, SPEC, "Trace_ServerShutdown", t_cfg, [m], name="selftest-early", reset={"e": "End"})
-        selftest[label] = "rejected" if fails and fails[0]["event"].get("e") == "ShutdownEnd" else "ACCEPTED"
-        if selftest[label] != "rejected":
-            raise Inconclusive("binding self-test failed: %s accepted" % label)
+        jobs.append((label, m, lambda fails, m: bool(fails) and fails[0]["event"].get("e") == "ShutdownEnd"))
+    # runs with a slow client: the handler of a request read before the shutdown is blocked in conn.Write when Shutdown is called
+    slowruns = [t for t in allt if t[0]["kind"].startswith("slow")]
+    blocked = [(t, blocked_in_write(t)) for t in slowruns]
+    if not any(b for _, b in blocked):
+        raise Inconclusive("no run in which a handler was blocked in conn.Write when Shutdown was called (vacuous corpus)")
+    m = None
+    for t, b in blocked:
+        cc = [i for i, e in enumerate(t) if b and e["e"] == "ConnClosed" and e["c"] == b[0] // 10]
+        cr = [i for i, e in enumerate(t) if b and e["e"] == "ClientReads" and e["c"] == b[0] // 10]
+        if cc and cr and not any(e["e"] == "RespCut" for e in t):
+            # (a) the connection is closed while the handler is in conn.Write: the counter no longer covers the write
+            m = list(t)
+            m.insert(cr[0], m.pop(cc[0]))
+            # (b) the stream ends inside the response
+            ri = [i for i, e in enumerate(t) if e["e"] == "RespRecv" and e["r"] == b[0]][0]
+            m2 = t[:ri] + [{"e": "RespCut", "c": b[0] // 10, "r": b[0], "got": 65536, "want": 1 << 20}] + t[ri + 1:]
+            break
+    if m is None:
+        raise Inconclusive("no run suitable for the self-test closed-under-write (vacuous corpus)")
+    jobs.append(("closed-while-handler-in-conn.Write", m, lambda fails, m: bool(fails) and fails[0]["event"].get("e") == "ConnClosed"
+                 and classify(m[0]["n"], m[0]["q"], m, fails[0])[0].startswith("C12:closed-under-response-write:shutdown")))
+    jobs.append(("response-cut-short", m2, lambda fails, m: bool(fails) and fails[0]["event"].get("e") == "RespCut"))
+
+    def selfjob(j):
+        label, m, ok = j
+        acc, fails, _ = tracecheck.validate(ctx, SPEC, "Trace_ServerShutdown", tcfg(tmpl, (m[0]["n"], m[0]["q"], m[0]["idle"])), [m],
+                                            name="selftest-" + label.replace(".", "-"), reset={"e": "End"})
+        return label, ok(fails, m)
+
+    selftest = {}
+    with ThreadPoolExecutor(max_workers=4) as ex:
+        for label, ok in ex.map(selfjob, jobs):
+            selftest[label] = "rejected" if ok else "ACCEPTED"
+    for label, v in selftest.items():
+        if v != "rejected":
+            raise Inconclusive("binding self-test failed: corrupted run '%s' was accepted" % label)
+    sizes = sorted({e["size"] for t in slowruns for e in t if e["e"] == "ReqSent" and e.get("size")})
+    # idle server, Shutdown after the fact: connections closed as idle (before any call of Shutdown) after a response write that
+    # had been blocked for 1.3-2.6 s, i.e. across one or two read timeouts (1 s) at which the recv loop looked at numInvoke
+    idled = sum(1 for t in slowruns if t[0]["idle"] for i, e in enumerate(t) if e["e"] == "ConnClosed" and not any(x["e"] == "ShutdownStart" for x in t[:i])
+                and any(x["e"] == "Written" and x["r"] // 10 == e["c"] for x in t[:i]))
+    if idled == 0:
+        raise Inconclusive("no run in which a connection was closed as idle after a blocked response write (vacuous corpus)")
     waited = sum(1 for t in allt for e in t if e["e"] == "ShutdownEnd" and not e["expired"] and early_return(t, lambda t_, k, k0=e["k"]: k == k0))
     ctx.coverage = {
         "states": sum(v["distinct"] for v in mc.values()) + states,
@@ -293,9 +402,20 @@ def run(ctx):
         "rule": "runs: pool 0/1/2, queue 1/3; base: 1-2 connections, 0-6 requests with handler durations 0-400 ms, Shutdown 0-300 ms after the "
                 "last request (in-flight, queued and idle mixes); one run in three of every kind: one more request 200-300 ms after Shutdown began; twice: 1-3 connections, a 1.2-2.7 s handler in flight, 2-3 calls of Shutdown "
                 "(overlapping, after an expired call, after a drained call; contexts 6 s or 300-900 ms); mix: 3-6 connections (silent, silent "
-                "after early traffic, 0.7-2.7 s handler in flight, recent requests), 1-3 calls; distinct = distinct event traces",
+                "after early traffic, 0.7-2.7 s handler in flight, recent requests), 1-3 calls; slow: 1-2 connections, 1-3 requests with responses of "
+                "1-16 MiB to a client with a 64 KiB receive buffer that starts reading 1.2-3.2 s after Shutdown was called (handlers blocked in conn.Write "
+                "or waiting behind them), 1-3 calls; slowidle: the same on a server with ReadTimeout 1 s / IdleTimeout 0 (idle close), Shutdown during "
+                "the write or after the idle close; distinct = distinct event traces",
         "runs_by_kind": kinds,
         "runs_with_a_request_sent_during_Shutdown": sum(1 for t in allt if any(e["e"] == "ReqSent" for e in t[[i for i, e in enumerate(t) if e["e"] == "ShutdownStart"][0]:])),
+        "runs_with_a_handler_blocked_in_conn.Write_when_Shutdown_was_called": sum(1 for _, b in blocked if b),
+        "handlers_blocked_in_conn.Write_when_Shutdown_was_called": sum(len(b) for _, b in blocked),
+        "of_these_with_a_worker_pool": sum(len(b) for t, b in blocked if t[0]["n"] > 0),
+        "response_sizes_of_slow_runs": sizes,
+        "complete_large_responses_received_by_slow_clients": sum(1 for t in slowruns for e in t if e["e"] == "RespRecv" and any(
+            x["e"] == "ReqSent" and x["r"] == e["r"] and x.get("size") for x in t)),
+        "runs_on_a_server_with_read_and_idle_timeouts": sum(1 for t in slowruns if t[0]["idle"]),
+        "connections_closed_as_idle_before_Shutdown_after_a_slow_write": idled,
         "runs_with_3_or_more_connections": sum(1 for t in allt if t[0]["conns"] >= 3),
         "runs_with_several_calls_of_Shutdown": sum(1 for t in allt if calls(t) > 1),
         "calls_of_Shutdown": sum(calls(t) for t in allt),
